@@ -11,6 +11,7 @@ import (
 	"github.com/polynetwork/poly/common"
 	cstates "github.com/polynetwork/poly/core/states"
 	scom "github.com/polynetwork/poly/core/store/common"
+	ccom "github.com/polynetwork/poly/native/service/cross_chain_manager/common"
 	"github.com/polynetwork/poly/native/service/cross_chain_manager/consensus_vote"
 	"github.com/polynetwork/poly/native/service/governance/neo3_state_manager"
 	"github.com/polynetwork/poly/native/service/governance/node_manager"
@@ -55,6 +56,7 @@ type snapshot struct {
 	svrid    string
 	sig      map[string]string
 	vote     map[string]string
+	done     []string
 	unknown  []string
 	blackSet map[string]bool // decoded pk hex
 }
@@ -355,8 +357,11 @@ func (w *world) snap() *snapshot {
 				}
 			}
 			unk(3, k)
+		} else if suf, ok := match(k, ccom.DONE_TX, -1); ok && len(suf) >= 8 && hex.EncodeToString(v) == hex.EncodeToString(suf[8:]) {
+			s.done = append(s.done, fmt.Sprintf("%d/%s", le64(suf[:8]), hexOrDash(suf[8:])))
 		}
 	}
+	sort.Strings(s.done)
 	sort.Strings(s.unknown)
 	return s
 }
@@ -409,7 +414,7 @@ func (s *snapshot) text() string {
 	fmt.Fprintf(&b, ";scapply=%s;scupd=%s;scquit=[%s];sc=%s", mapStrNum(s.scapply), mapStrNum(s.scupd), strings.Join(q, ","), mapStrNum(s.sc))
 	fmt.Fprintf(&b, ";rl=[%s];rlapply=%s;rlrm=%s;rlaid=%s;rlrid=%s", strings.Join(s.rl, ","), mapStrNum(s.rlapply), mapStrNum(s.rlrm), s.rlaid, s.rlrid)
 	fmt.Fprintf(&b, ";sv=%s;svapply=%s;svrm=%s;svaid=%s;svrid=%s", s.sv, mapStrNum(s.svapply), mapStrNum(s.svrm), s.svaid, s.svrid)
-	fmt.Fprintf(&b, ";sig=%s;vote=%s;perm=[%s]", mapStr(s.sig), mapStr(s.vote), permittedText())
+	fmt.Fprintf(&b, ";sig=%s;vote=%s;done=[%s];perm=[%s]", mapStr(s.sig), mapStr(s.vote), strings.Join(s.done, ","), permittedText())
 	if len(s.unknown) > 0 {
 		fmt.Fprintf(&b, ";unknown=[%s]", strings.Join(s.unknown, ","))
 	}
